@@ -270,12 +270,3 @@ pub fn calc_twap(
 
     Ok(weighted_price.checked_div(Uint128::from(interval))?)
 }
-
-/// Does the modulus (%) operator on Uint128.
-/// However it follows the design of the perpetual protocol decimals
-/// https://github.com/perpetual-protocol/perpetual-protocol/blob/release/v2.1.x/src/utils/Decimal.sol
-pub(crate) fn modulo(a: Uint128, b: Uint128, decimals: Uint128) -> Uint128 {
-    let a_decimals = a.checked_mul(decimals).unwrap();
-    let integral = a_decimals / b;
-    a_decimals - (b * integral)
-}
